@@ -765,6 +765,166 @@ def r7(run: Run, rt):
                   'VALUE does not end with the error value #VALUE! for text that denotes no number', fact='#VALUE!', loc=cp.loc(last))
 
 
+def slices_eval(run: Run, rt):
+    """LEFT / RIGHT / MID decided by abstract evaluation (engine F) on concrete texts over the whole grid of counts and starts:
+    the characters Excel returns, an error value for a negative count or a start before 1, the empty result as blank or ''"""
+    from ..finite import evaluator_for, const_av, Unknown, AbsRaise
+    texts = ['', 'a', 'abc', 'Hello World']
+    counts = [None, 0, 1, 2, 3, 5, 11, 100, -1, -5]
+    starts = [1, 2, 3, 4, 11, 12, 100, 0, -1]
+
+    def excel(h, text, a, b=None):
+        if h == '_left':
+            if a is None:
+                return text[:1]
+            return 'error' if a < 0 else text[:a]
+        if h == '_right':
+            if a is None:
+                return text[-1:]
+            return 'error' if a < 0 else (text[len(text) - a:] if 0 < a <= len(text) else text if a > len(text) else '')
+        if a < 1 or b < 0:
+            return 'error'
+        return text[a - 1:a - 1 + b]
+    for cp in rt.copies():
+        for h in ('_left', '_right', '_mid'):
+            fn = cp.members.get(h)
+            if fn is None:
+                run.bad('C17.R1', f'{h}[{cp.label}]', 'missing', f'helper {h} is missing', loc=cp.path)
+                continue
+            grid = [(t, c, None) for t in texts for c in counts] if h != '_mid' else \
+                [(t, s_, c) for t in texts for s_ in starts for c in counts if c is not None]
+            wrong, n = [], 0
+            for t, a, b in grid:
+                want = excel(h, t, a, b)
+                ev = evaluator_for(cp, max_depth=6)
+                args = [const_av(t), const_av(a)] + ([const_av(b)] if h == '_mid' else [])
+                try:
+                    res = ev.call_method(h, args)
+                    got = '' if res.kind == 'blank' else res.val if isinstance(res.val, str) else repr(res)
+                    if isinstance(got, str) and got.startswith('#'):
+                        got = 'error'
+                except Unknown as u:
+                    raise AnalysisError('C17.R1', f'{h}[{cp.label}]({t!r}, {a!r}{"" if b is None else ", " + repr(b)}): the abstraction cannot follow the helper ({u})')
+                except AbsRaise as e:
+                    got = f'raises {e.exc}'
+                n += 1
+                if got != want:
+                    wrong.append((t, a, b, got, want))
+            # one obligation per (helper, text): the whole grid of counts / starts for that text
+            for t in texts:
+                bad = [w for w in wrong if w[0] == t]
+                shown = '; '.join(f'{h[1:].upper()}({w[0]!r}, {w[1]!r}{"" if w[2] is None else ", " + repr(w[2])}) -> {w[3]!r} (Excel: {w[4]!r})'
+                                  for w in bad[:4])
+                run.check(not bad, 'C17.R1', f'{h}[{cp.label}]/{t!r}', 'wrong-characters',
+                          f'{len(bad)} of the count / start combinations give other characters than Excel: {shown}',
+                          fact='every count / start combination', loc=cp.loc(fn))
+
+
+SEARCH_CASES = [
+    ('lo', 'Hello World', None, 4), ('LO', 'hello world', None, 4), ('o', 'Hello World', 6, 8), ('o', 'Hello World', 5, 5), ('o', 'Hello World', 9, 'error'),
+    ('xyz', 'Hello World', None, 'error'), ('H', 'Hello World', 1, 1), ('d', 'Hello World', 11, 11), ('d', 'Hello World', 12, 'error'),
+    ('o', 'Hello World', 0, ('error', 5)), ('o', 'Hello World', -1, ('error', 5)), ('World', 'Hello World', None, 7), ('hello world', 'Hello World', None, 1),
+    ('l', 'Hello World', 4, 4), ('l', 'Hello World', 5, 10), ('a.c', 'abc a.c', None, 5), ('(', 'f(x)', None, 2), ('+', '1+1', None, 2),
+    ('~?', 'what? no', None, 5), ('~*', 'a*b', None, 2),
+    # wildcards, on texts where occurrences do not overlap
+    ('h?llo', 'Hello World', None, 1), ('?o', 'Hello World', None, 4), ('?o', 'Hello World', 5, 7), ('w*d', 'Hello World', None, 7),
+    ('o?', 'Hello World', 6, 8), ('x?z', 'Hello World', None, 'error'), ('W?r', 'Hello World', 8, 'error'),
+    ('?', 'abc', 2, 2), ('[', 'a[0]', None, 2), ('\\d', 'a1 \\d', None, 4), ('$', 'cost $5', None, 6),
+]
+
+
+def search_eval(run: Run, rt):
+    """SEARCH decided by abstract evaluation (engine F) for finds without wildcards: the 1-based position of the first
+    occurrence at or after the start, ignoring case, every other character (regex metacharacters, escaped wildcards) standing for
+    itself; #VALUE! when there is none or the start is outside the text"""
+    from ..finite import evaluator_for, const_av, Unknown, AbsRaise
+    for cp in rt.copies():
+        fn = cp.members.get('_search')
+        if fn is None:
+            run.bad('C17.R3', f'_search[{cp.label}]', 'missing', 'helper _search is missing', loc=cp.path)
+            continue
+        for find, within, start, want in SEARCH_CASES:
+            ev = evaluator_for(cp, max_depth=8)
+            construct = f'_search[{cp.label}]/{find!r} in {within!r} from {start!r}'
+            try:
+                res = ev.call_method('_search', [const_av(find), const_av(within), const_av(start)])
+                got = res.val if res.val is not None and not isinstance(res.val, tuple) else repr(res)
+                if isinstance(got, str) and got.startswith('#'):
+                    got = 'error'
+            except Unknown as u:
+                raise AnalysisError('C17.R3', f'{construct}: the abstraction cannot follow the helper ({u})')
+            except AbsRaise as e:
+                got = f'raises {e.exc}'
+            # a start before the text: the statement asks for the first occurrence at or after it; Excel itself rejects it -- both pass
+            accept = want if isinstance(want, tuple) else (want,)
+            run.check(any(got == w and type(got) is type(w) for w in accept), 'C17.R3', construct, 'search-position',
+                      f'SEARCH({find!r}, {within!r}, {start!r}) gives {got!r}; Excel: {want!r} (first occurrence at or after the start, '
+                      f'case ignored, 1-based; #VALUE! otherwise)', fact=f'-> {got!r}', loc=cp.loc(fn))
+
+
+VALUE_CASES = [('12', 12), (' 12 ', 12), ('-7', -7), ('1.5', 1.5), ('1,5', 1.5), ('-0.25', -0.25), ('1e3', 1000.0), ('007', 7), ('0', 0),
+               ('12.0', 12.0), ('abc', 'error'), ('', 'error'), ('12abc', 'error'), ('1.2.3', 'error')]
+
+
+def value_eval(run: Run, rt):
+    """VALUE on texts that are plainly a number or plainly not: the number the text denotes (blanks at the ends ignored, decimal
+    comma or point), #VALUE! for a text that is no number"""
+    from ..finite import evaluator_for, const_av, Unknown, AbsRaise
+    for cp in rt.copies():
+        fn = cp.members.get('_value')
+        if fn is None:
+            run.bad('C17.R7', f'_value[{cp.label}]', 'missing', 'helper _value is missing', loc=cp.path)
+            continue
+        for text, want in VALUE_CASES:
+            ev = evaluator_for(cp, max_depth=8)
+            construct = f'_value[{cp.label}]/{text!r}'
+            try:
+                res = ev.call_method('_value', [const_av(text)])
+                got = res.val if res.val is not None and not isinstance(res.val, tuple) else repr(res)
+                if isinstance(got, str) and got.startswith('#'):
+                    got = 'error'
+            except Unknown as u:
+                if want == 'error':
+                    continue            # the ladder of date and time formats is outside the abstraction
+                raise AnalysisError('C17.R7', f'{construct}: the abstraction cannot follow the helper ({u})')
+            except AbsRaise as e:
+                got = f'raises {e.exc}'
+            run.check(got == want and (isinstance(got, str) or float(got) == float(want)), 'C17.R7', construct, 'value-number',
+                      f'VALUE({text!r}) gives {got!r}; Excel: {want!r}', fact=f'-> {got!r}', loc=cp.loc(fn))
+
+
+def _evaluated_then_structural(run: Run, rule: str, evaluated, structural, *args):
+    """the evaluated cases always count; the structural reading counts where the code can be read, and is the only verdict when
+    the abstraction cannot follow the helper"""
+    sub = Run('tmp', run.tier, run.seed, quiet=True)
+    ok = False
+    try:
+        evaluated(sub, args[-1])
+        ok = True
+    except AnalysisError as e:
+        run.note(f'{rule}: by structure only ({e.reason[:120]})')
+    if ok:
+        for o in sub.obligations:
+            if o['verdict'] == 'holds':
+                run.ok(o['rule'], o['construct'], o['fact'], loc=o['loc'])
+        for f_ in sub.findings:
+            run.bad(f_['rule'], f_['construct'], f_['sub'], f_['message'], loc=f_['loc'])
+        sub2 = Run('tmp', run.tier, run.seed, quiet=True)
+        try:
+            structural(sub2, *args)
+            for o in sub2.obligations:
+                if o['verdict'] == 'holds':
+                    run.ok(o['rule'], o['construct'], o['fact'], loc=o['loc'])
+            for f_ in sub2.findings:
+                run.bad(f_['rule'], f_['construct'], f_['sub'], f_['message'], loc=f_['loc'])
+        except AnalysisError as e:
+            run.note(f'{rule}: the structural reading gave up ({e.reason[:120]}); the evaluated cases decide')
+            for f_ in sub2.findings:             # what it had found before it gave up still counts
+                run.bad(f_['rule'], f_['construct'], f_['sub'], f_['message'], loc=f_['loc'])
+    else:
+        structural(run, *args)
+
+
 def run(run: Run):
     src = get_source()
     g = get_grammar(src)
@@ -777,12 +937,12 @@ def run(run: Run):
     run.rule('C17.R5', 'argument plumbing of LEFT/RIGHT/MID/SEARCH/VALUE/CONCATENATE equals the confirmed reference')
     run.rule('C17.R6', 'a text literal in operand position denotes its own text')
     run.rule('C17.R7', 'VALUE: integer text -> int, decimal text -> float, #VALUE! fallback')
-    run.guard('C17.R1', r1, run, rt)
+    run.guard('C17.R1', _evaluated_then_structural, run, 'C17.R1', slices_eval, r1, rt)
     run.guard('C17.R2', r2, run, src, g, em, rt)
-    run.guard('C17.R3', r3_r4, run, rt)
+    run.guard('C17.R3', _evaluated_then_structural, run, 'C17.R3', search_eval, r3_r4, rt)
     run.guard('C17.R5', check_plumbing, run, 'C17.R5', src, em, rt, FUNCS)
     run.guard('C17.R6', r6, run, src, g, em)
-    run.guard('C17.R7', r7, run, rt)
+    run.guard('C17.R7', _evaluated_then_structural, run, 'C17.R7', value_eval, r7, rt)
     # a function result depends on its arguments only: no runtime helper keeps results or other state between calls
     from .common import borrow as _borrow
     from . import c08 as _c08
